@@ -140,6 +140,13 @@ def main(ctx, replay=None):
             if not ok:
                 ctx.violation(f"the calculation runs stage '{tr[consumed]['stage']}' before what it reads exists (stage order so far: "
                               f"{[e['stage'] for e in tr[max(0, consumed - 6):consumed + 1]]})", {"trace": tr[:consumed + 1]}, {"clause": "stage_order", "stage": tr[consumed]["stage"]})
+            elif ctx.tier == "thorough":
+                from cv.trace import binding_control
+                k = next((i for i, e in enumerate(tr) if e["stage"] == "phonon"), None)
+                if k is not None:
+                    j = next(i for i, e in enumerate(tr) if e["stage"] == "summed" and i > k)
+                    swapped = tr[:k] + [tr[j]] + tr[k:j] + tr[j + 1:]
+                    binding_control(ctx, "Trace_Pipeline", "Trace_Pipeline.cfg", swapped, k, lambda e: e, "pipeline_neg", "stage_order")
         taint(ctx, rng, datasets, prov, wd)
     finally:
         wd.close()
